@@ -715,4 +715,133 @@ theorem yearsSS_ne_zero (years : List Int) (h : ∃ a ∈ years, ∃ b ∈ years
   have : (a : Rat) = (b : Rat) := by linarith
   exact hab (by exact_mod_cast this)
 
+/-! ### lengths through steps 3, 4, 6 (any configuration) -/
+
+theorem step3_future_length (cfg : Cfg) (o : Oracles) (obs H F : List Rat) (yO yH yF : List Int)
+    (hF : F.length = yF.length) : (step3 cfg o obs H F yO yH yF).2.2.1.length = F.length := by
+  unfold step3
+  by_cases hd : cfg.detrending = true
+  · simp only [hd, if_true, step3RemoveTrend, List.length_zipWith, dailyTrend_length _ _ _ _ hF, min_self]
+  · simp only [hd, Bool.false_eq_true, if_false]
+
+theorem randomizeMasked_length (vals : List Rat) (mask : List Bool) (draws out : List Rat)
+    (h : randomizeMasked vals mask draws = .ok out) : out.length = vals.length := by
+  unfold randomizeMasked at h
+  simp only [] at h
+  split_ifs at h
+  rw [← Except.ok.inj h, fillWhere_length]
+
+/-- step 4 keeps the length of `cm_future` -/
+theorem step4_future_length (cfg : Cfg) (d : Draws) (obs H F : List Rat) (r : List Rat × List Rat × List Rat)
+    (h : step4 cfg d obs H F = .ok r) : r.2.2.length = F.length := by
+  unfold step4 at h
+  simp only [bind, Except.bind, pure, Except.pure] at h
+  by_cases hl : (cfg.hasLowerBound && cfg.hasLowerThreshold) = true
+  · simp only [hl, if_true, step4RandomizeLower] at h
+    cases h1 : randomizeMasked obs (maskBeyondLower cfg obs) d.lowO with
+    | error e => simp [h1] at h
+    | ok o1 =>
+      cases h2 : randomizeMasked H (maskBeyondLower cfg H) d.lowH with
+      | error e => simp [h1, h2] at h
+      | ok h1' =>
+        cases h3 : randomizeMasked F (maskBeyondLower cfg F) d.lowF with
+        | error e => simp [h1, h2, h3] at h
+        | ok f1 =>
+          have lf1 := randomizeMasked_length _ _ _ _ h3
+          simp only [h1, h2, h3] at h
+          by_cases hu : (cfg.hasUpperBound && cfg.hasUpperThreshold) = true
+          · simp only [hu, if_true, step4RandomizeUpper] at h
+            cases h4 : randomizeMasked o1 (maskBeyondUpper cfg o1) d.upO with
+            | error e => simp [h4] at h
+            | ok o2 =>
+              cases h5 : randomizeMasked h1' (maskBeyondUpper cfg h1') d.upH with
+              | error e => simp [h4, h5] at h
+              | ok h2' =>
+                cases h6 : randomizeMasked f1 (maskBeyondUpper cfg f1) d.upF with
+                | error e => simp [h4, h5, h6] at h
+                | ok f2 =>
+                  simp only [h4, h5, h6, Except.ok.injEq] at h
+                  rw [← h]
+                  simp only
+                  rw [randomizeMasked_length _ _ _ _ h6, lf1]
+          · simp only [hu, Bool.false_eq_true, if_false, Except.ok.injEq] at h
+            rw [← h]; exact lf1
+  · simp only [hl, Bool.false_eq_true, if_false] at h
+    by_cases hu : (cfg.hasUpperBound && cfg.hasUpperThreshold) = true
+    · simp only [hu, if_true, step4RandomizeUpper] at h
+      cases h4 : randomizeMasked obs (maskBeyondUpper cfg obs) d.upO with
+      | error e => simp [h4] at h
+      | ok o2 =>
+        cases h5 : randomizeMasked H (maskBeyondUpper cfg H) d.upH with
+        | error e => simp [h4, h5] at h
+        | ok h2' =>
+          cases h6 : randomizeMasked F (maskBeyondUpper cfg F) d.upF with
+          | error e => simp [h4, h5, h6] at h
+          | ok f2 =>
+            simp only [h4, h5, h6, Except.ok.injEq] at h
+            rw [← h]
+            exact randomizeMasked_length _ _ _ _ h6
+    · simp only [hu, Bool.false_eq_true, if_false, Except.ok.injEq] at h
+      rw [← h]
+
+/-- step 6 returns one value per value of `cm_future` (`mapped_vals[np.argsort(cm_future_argsort)]`) -/
+theorem step6_length (cfg : Cfg) (fam : IsiFamily) (o : Oracles) (obs oF H F r : List Rat)
+    (h : step6 cfg fam o obs oF H F = .ok r) : r.length = F.length := by
+  unfold step6 at h
+  cases hf : step6Full cfg fam o obs oF H F with
+  | error e => rw [hf] at h; simp [Except.map] at h
+  | ok s6 =>
+    rw [hf] at h
+    simp only [Except.map, Except.ok.injEq] at h
+    rw [← h]
+    -- `result = takeIdx mapped (rankOf F)` in every branch
+    have hres : ∃ m : List Rat, s6.result = takeIdx m (rankOf F) := by
+      unfold step6Full at hf
+      simp only [bind, Except.bind, pure, Except.pure] at hf
+      repeat' split at hf
+      all_goals first
+        | (simp only [reduceCtorEq] at hf)
+        | (simp only [Except.ok.injEq] at hf; exact ⟨_, by rw [← hf]⟩)
+    obtain ⟨m, hm⟩ := hres
+    rw [hm]
+    unfold takeIdx
+    rw [List.length_map, rankOf_length]
+
+theorem step3_trend_length (cfg : Cfg) (o : Oracles) (obs H F : List Rat) (yO yH yF : List Int)
+    (hF : F.length = yF.length) : (step3 cfg o obs H F yO yH yF).2.2.2.length = F.length := by
+  unfold step3
+  by_cases hd : cfg.detrending = true
+  · simp only [hd, if_true, step3RemoveTrend, dailyTrend_length _ _ _ _ hF]
+  · simp only [hd, Bool.false_eq_true, if_false, List.length_map]
+
+/-- `_apply_on_window` returns one value per value of `cm_future` (any configuration) -/
+theorem applyOnWindow_length (cfg : Cfg) (fam : IsiFamily) (o : Oracles) (d : Draws) (obs H F : List Rat)
+    (yO yH yF : List Int) (out : List Rat) (hlen : F.length = yF.length)
+    (hrun : applyOnWindow cfg fam o d obs H F yO yH yF = .ok out) : out.length = F.length := by
+  rw [applyOnWindow_eq] at hrun
+  cases h4 : step4 cfg d (step3 cfg o obs H F yO yH yF).1 (step3 cfg o obs H F yO yH yF).2.1
+      (step3 cfg o obs H F yO yH yF).2.2.1 with
+  | error e => rw [h4] at hrun; simp [Except.bind] at hrun
+  | ok r4 =>
+    rw [h4] at hrun
+    simp only [Except.bind] at hrun
+    cases h5 : step5 cfg o r4.1 r4.2.1 r4.2.2 with
+    | error e => rw [h5] at hrun; simp at hrun
+    | ok oF =>
+      rw [h5] at hrun
+      simp only at hrun
+      cases h6 : step6 cfg fam o r4.1 oF r4.2.1 r4.2.2 with
+      | error e => rw [h6] at hrun; simp at hrun
+      | ok r =>
+        rw [h6] at hrun
+        simp only [Except.ok.injEq] at hrun
+        have hr : r.length = F.length := by
+          rw [step6_length cfg fam o r4.1 oF r4.2.1 r4.2.2 r h6, step4_future_length cfg d _ _ _ r4 h4]
+          exact step3_future_length cfg o obs H F yO yH yF hlen
+        rw [← hrun]
+        unfold step7
+        split
+        · rw [List.length_zipWith, hr, step3_trend_length cfg o obs H F yO yH yF hlen, min_self]
+        · exact hr
+
 end Lemmas.C02
